@@ -1,11 +1,14 @@
 package main
 
 import (
+	"io"
+
 	"bufio"
 	"bytes"
 	"context"
 	"encoding/json"
 	"fmt"
+	"github.com/fatih/color"
 	"os"
 	"os/exec"
 	"path/filepath"
@@ -256,6 +259,7 @@ type c12job struct {
 // c12Worker: reads "<entry> <dochex>" lines, runs the massive-mode entry point, prints "ok <class>".
 // A panic in a library goroutine kills this process; the parent then reports the last case.
 func c12Worker() {
+	color.Output = io.Discard // dry-run Mkdir prints its report there; standard output carries the protocol
 	sc := bufio.NewScanner(os.Stdin)
 	sc.Buffer(make([]byte, 1<<20), 1<<26)
 	out := bufio.NewWriter(os.Stdout)
@@ -288,6 +292,15 @@ func c12Worker() {
 				jail := newJail()
 				err = gtree.MkdirFromMarkdown(bytes.NewReader(doc), append(opts, gtree.WithTargetDir(filepath.Join(jail, "t")))...)
 				time.Sleep(time.Millisecond)
+				os.RemoveAll(jail)
+			case "mkdir-alias":
+				jail := newJail()
+				err = gtree.Mkdir(bytes.NewReader(doc), append(opts, gtree.WithTargetDir(filepath.Join(jail, "t")), gtree.WithFileExtensions([]string{".go"}))...)
+				time.Sleep(time.Millisecond)
+				os.RemoveAll(jail)
+			case "mkdir-dry":
+				jail := newJail()
+				err = gtree.MkdirFromMarkdown(bytes.NewReader(doc), append(opts, gtree.WithTargetDir(filepath.Join(jail, "t")), gtree.WithDryRun())...)
 				os.RemoveAll(jail)
 			}
 			_, written := w.markReturned()
